@@ -76,16 +76,14 @@ theorem groupLoop_lines (lls : List LLine) : ∀ (code : Option (List Nat × Nat
     intro code ns h
     simp only [groupLoop] at h
     split at h
-    · split at h
-      · exact absurd h (by simp)
-      · cases hg : groupLoop none rest with
-        | error e => simp [hg] at h
-        | ok ns' =>
-          simp only [hg] at h
-          have := ih none ns' hg
-          cases code with
-          | none => simp only [Except.ok.injEq] at h; subst h; simp [this]
-          | some c => obtain ⟨ls, k⟩ := c; simp only [Except.ok.injEq] at h; subst h; simp [this]
+    · cases hg : groupLoop none rest with
+      | error e => simp [hg] at h
+      | ok ns' =>
+        simp only [hg] at h
+        have := ih none ns' hg
+        cases code with
+        | none => simp only [Except.ok.injEq] at h; subst h; simp [this]
+        | some c => obtain ⟨ls, k⟩ := c; simp only [Except.ok.injEq] at h; subst h; simp [this]
     · cases code with
       | none => simp only at h; have := ih _ ns h; simpa using this
       | some c => obtain ⟨ls, k⟩ := c; simp only at h; have := ih _ ns h; simpa [List.append_assoc] using this
@@ -108,31 +106,29 @@ theorem groupLoop_counts (lls : List LLine) : ∀ (code : Option (List Nat × Na
     intro code ns h hc
     simp only [groupLoop] at h
     split at h
-    · split at h
-      · exact absurd h (by simp)
-      · cases hg : groupLoop none rest with
-        | error e => simp [hg] at h
-        | ok ns' =>
-          simp only [hg] at h
-          have hrest := ih none ns' hg (by simp)
-          cases code with
-          | none =>
-            simp only [Except.ok.injEq] at h; subst h
-            intro nd hnd
-            simp only [List.mem_cons] at hnd
-            rcases hnd with rfl | hnd
-            · rfl
-            · exact hrest nd hnd
-          | some c =>
-            obtain ⟨ls, k⟩ := c
-            simp only [Except.ok.injEq] at h; subst h
-            have := hc (ls, k) rfl
-            intro nd hnd
-            simp only [List.mem_cons] at hnd
-            rcases hnd with rfl | rfl | hnd
-            · simpa using this
-            · rfl
-            · exact hrest nd hnd
+    · cases hg : groupLoop none rest with
+      | error e => simp [hg] at h
+      | ok ns' =>
+        simp only [hg] at h
+        have hrest := ih none ns' hg (by simp)
+        cases code with
+        | none =>
+          simp only [Except.ok.injEq] at h; subst h
+          intro nd hnd
+          simp only [List.mem_cons] at hnd
+          rcases hnd with rfl | hnd
+          · rfl
+          · exact hrest nd hnd
+        | some c =>
+          obtain ⟨ls, k⟩ := c
+          simp only [Except.ok.injEq] at h; subst h
+          have := hc (ls, k) rfl
+          intro nd hnd
+          simp only [List.mem_cons] at hnd
+          rcases hnd with rfl | rfl | hnd
+          · simpa using this
+          · rfl
+          · exact hrest nd hnd
     · cases code with
       | none => simp only at h; exact ih _ ns h (by simp)
       | some c =>
@@ -146,7 +142,7 @@ theorem groupLoop_counts (lls : List LLine) : ∀ (code : Option (List Nat × Na
 theorem groupLoop_nodesOf (lls : List LLine) : ∀ (code : Option (List Nat × Nat)) (ns : List Node),
     groupLoop code lls = .ok ns →
     ns.map (fun nd => (nd.kind == NKind.directive, nd.lines)) =
-      nodesOf (code.map (·.1)) (lls.map fun l => (l.cat == Cat.cppDirective, l.lines)) := by
+      nodesOf (code.map (·.1)) (lls.map fun l => (l.isDirective, l.lines)) := by
   induction lls with
   | nil =>
     intro code ns h
@@ -158,24 +154,22 @@ theorem groupLoop_nodesOf (lls : List LLine) : ∀ (code : Option (List Nat × N
     simp only [groupLoop] at h
     split at h
     · rename_i hcat
-      split at h
-      · exact absurd h (by simp)
-      · cases hg : groupLoop none rest with
-        | error e => simp [hg] at h
-        | ok ns' =>
-          simp only [hg] at h
-          have := ih none ns' hg
-          simp only [Option.map_none] at this
-          cases code with
-          | none =>
-            simp only [Except.ok.injEq] at h; subst h
-            simp [nodesOf, hcat, this]
-          | some c =>
-            obtain ⟨ls, k⟩ := c
-            simp only [Except.ok.injEq] at h; subst h
-            simp [nodesOf, hcat, this]
+      cases hg : groupLoop none rest with
+      | error e => simp [hg] at h
+      | ok ns' =>
+        simp only [hg] at h
+        have := ih none ns' hg
+        simp only [Option.map_none] at this
+        cases code with
+        | none =>
+          simp only [Except.ok.injEq] at h; subst h
+          simp [nodesOf, hcat, this]
+        | some c =>
+          obtain ⟨ls, k⟩ := c
+          simp only [Except.ok.injEq] at h; subst h
+          simp [nodesOf, hcat, this]
     · rename_i hcat
-      have hcat' : (l.cat == Cat.cppDirective) = false := by simpa using hcat
+      have hcat' : l.isDirective = false := by simpa using hcat
       cases code with
       | none =>
         simp only at h
